@@ -73,7 +73,13 @@ pub fn default_compile_verdict<P: ExecProp + ?Sized>(p: &P, module_text: &str, d
             _ => elsewhere += 1,
         }
     }
-    Verdict::Skip(format!("uncompilable_elsewhere({elsewhere})"))
+    if std::env::var("VERIF_DEBUG").is_ok() {
+        if let Some(d) = diags.first() {
+            eprintln!("uncompilable_elsewhere: {}", d.rendered);
+        }
+    }
+    let _ = elsewhere;
+    Verdict::Skip("uncompilable_elsewhere".to_string())
 }
 
 struct Prepared {
@@ -174,9 +180,34 @@ pub fn case_json(b: &Built, choices: &[u32], module_text: Option<&str>) -> Value
     })
 }
 
+/// Evaluate fixed (enumerated) choice vectors: no shrinking. Returns true if a violation was reported.
+pub fn run_fixed<P: ExecProp + ?Sized>(p: &P, sut: &dyn Sut, run: &mut Run, stats: &mut Stats, cases: &[Vec<u32>]) -> bool {
+    let trees: Vec<Box<dyn proptest::strategy::ValueTree<Value = Vec<u32>>>> =
+        cases.iter().map(|c| Box::new(FixedTree(c.clone())) as Box<dyn proptest::strategy::ValueTree<Value = Vec<u32>>>).collect();
+    run_trees(p, sut, run, stats, Sampled { trees })
+}
+
+struct FixedTree(Vec<u32>);
+impl proptest::strategy::ValueTree for FixedTree {
+    type Value = Vec<u32>;
+    fn current(&self) -> Vec<u32> {
+        self.0.clone()
+    }
+    fn simplify(&mut self) -> bool {
+        false
+    }
+    fn complicate(&mut self) -> bool {
+        false
+    }
+}
+
 /// One round: `n` cases. Returns true if a violation was reported.
 pub fn run_round<P: ExecProp + ?Sized>(p: &P, sut: &dyn Sut, run: &mut Run, stats: &mut Stats, stream: u64, n: usize, len: (usize, usize)) -> bool {
-    let (_r, mut sampled) = sample(run.seed_for(stream), n, len);
+    let (_r, sampled) = sample(run.seed_for(stream), n, len);
+    run_trees(p, sut, run, stats, sampled)
+}
+
+fn run_trees<P: ExecProp + ?Sized>(p: &P, sut: &dyn Sut, run: &mut Run, stats: &mut Stats, mut sampled: Sampled) -> bool {
     let mut prepared: Vec<Option<Prepared>> = Vec::new();
     let mut direct_violation: Option<(usize, String)> = None;
     for (i, t) in sampled.trees.iter().enumerate() {
